@@ -29,6 +29,9 @@ def run(sh):
     n = 400 if sh.tier == 'quick' else 80000
     engine_line.run_profile(sh, 'C06', 'faults', n * 3 // 4, MONITORS, nontrivial)
     engine_line.run_profile(sh, 'C06', 'general', n // 4, MONITORS, nontrivial)
+    # one-shot offsets requested between building the model and its first run
+    engine_line.run_profile(sh, 'C06', 'faults', n // 4, MONITORS, nontrivial, prefix='warm_up_',
+                            overrides={'p_pre_offset': 0.5}, tag='warmup')
 
 
 def replay(sh, v):
